@@ -110,10 +110,18 @@ def driverStep (d : DSt) (ws : List String) : DSt × String :=
         | [u, r] => (match decChars u, decChars r with | some u, some r => some (u, r) | _, _ => none)
         | _ => none
       let join (_b u : Str) : Str := match tbl.find? (·.1 == u) with | some p => p.2 | none => S "<oracle-miss>"
-      apply d { base := baseOps "" "", join := join, fix := id, loose := d.loose, parseDate := fun _ => pd,
-                looksHtml := fun _ => looks, resolveMarkup := fun _ _ _ => strField "R:", sanitize := fun _ _ => strField "Z:",
-                b64 := fun _ => b64v, decodeEnt := fun _ _ => strField "E:", resolveOn := d.resolveOn, sanitizeOn := d.sanitizeOn,
-                emailMatch := fun _ => emailv } (.stop tag)
+      let opsWith (lk : Bool) : Ops :=
+        { base := baseOps "" "", join := join, fix := id, loose := d.loose, parseDate := fun _ => pd,
+          looksHtml := fun _ => lk, resolveMarkup := fun _ _ _ => strField "R:", sanitize := fun _ _ => strField "Z:",
+          b64 := fun _ => b64v, decodeEnt := fun _ _ => strField "E:", resolveOn := d.resolveOn, sanitizeOn := d.sanitizeOn,
+          emailMatch := fun _ => emailv }
+      -- a Boolean oracle has no "missing" value: when the real run recorded no `looks_like_html` answer but the model's step DEPENDS on one, say so
+      -- (the model consults the guess where the real code did not call it, or the other way round)
+      let r1 := apply d (opsWith looks) (.stop tag)
+      if (field "L:").isNone then
+        let r2 := apply d (opsWith true) (.stop tag)
+        if r1.2 != r2.2 || dump r1.1.s != dump r2.1.s then ({ d with dead := some (S "oracle-miss") }, "oracle-miss looks_like_html") else r1
+      else r1
     | none => (d, "bad-op")
   | ["data", t] =>
     match decChars t with
